@@ -256,8 +256,111 @@ impl MCurve {
         }
         acc
     }
-    pub fn in_subgroup(&self, p: &MP) -> bool {
+    /// Subgroup membership decided by the affine reference law.
+    pub fn in_subgroup_ref(&self, p: &MP) -> bool {
         self.on_curve(p) && self.is_id(&self.mul(p, &self.r))
+    }
+    /// Subgroup membership decided by the inversion-free ladder (`mul_fast`), which main()
+    /// validates against the affine reference before anything relies on it.
+    pub fn in_subgroup(&self, p: &MP) -> bool {
+        self.on_curve(p) && self.is_id(&self.mul_fast(p, &self.r))
+    }
+    /// k * p in Jacobian (Weierstrass) resp. projective (Edwards) coordinates: one inversion at
+    /// the end instead of one per step. NOT the oracle of the group law: it only classifies
+    /// decoder inputs (subgroup membership) and is cross-checked against [`MCurve::mul`].
+    pub fn mul_fast(&self, p: &MP, k: &BigUint) -> MP {
+        let f = &self.f;
+        match (&self.shape, p) {
+            (Shape::SW { .. }, MP::Inf) => MP::Inf,
+            (Shape::SW { a, .. }, MP::At(x2, y2)) => {
+                // accumulator (X, Y, Z), Z = 0 <=> infinity
+                let mut acc: Option<(FE, FE, FE)> = None;
+                let dbl = |q: &(FE, FE, FE)| -> Option<(FE, FE, FE)> {
+                    let (x, y, z) = q;
+                    if f.is_zero(y) {
+                        return None;
+                    }
+                    let yy = f.sqr(y);
+                    let s = f.mul_u(&f.mul(x, &yy), 4);
+                    let zz = f.sqr(z);
+                    let m = f.add(&f.mul_u(&f.sqr(x), 3), &f.mul(a, &f.sqr(&zz)));
+                    let x3 = f.sub(&f.sqr(&m), &f.mul_u(&s, 2));
+                    let y3 = f.sub(&f.mul(&m, &f.sub(&s, &x3)), &f.mul_u(&f.sqr(&yy), 8));
+                    let z3 = f.mul_u(&f.mul(y, z), 2);
+                    Some((x3, y3, z3))
+                };
+                for i in (0..k.bits()).rev() {
+                    if let Some(q) = &acc {
+                        acc = dbl(q);
+                    }
+                    if k.bit(i) {
+                        acc = match &acc {
+                            None => Some((x2.clone(), y2.clone(), f.one())),
+                            Some(q) => {
+                                let (x1, y1, z1) = q;
+                                let zz = f.sqr(z1);
+                                let u2 = f.mul(x2, &zz);
+                                let s2 = f.mul(y2, &f.mul(&zz, z1));
+                                let hh = f.sub(&u2, x1);
+                                let r = f.sub(&s2, y1);
+                                if f.is_zero(&hh) {
+                                    if f.is_zero(&r) {
+                                        dbl(q)
+                                    } else {
+                                        None
+                                    }
+                                } else {
+                                    let h2 = f.sqr(&hh);
+                                    let h3 = f.mul(&h2, &hh);
+                                    let xh2 = f.mul(x1, &h2);
+                                    let x3 = f.sub(&f.sub(&f.sqr(&r), &h3), &f.mul_u(&xh2, 2));
+                                    let y3 = f.sub(&f.mul(&r, &f.sub(&xh2, &x3)), &f.mul(y1, &h3));
+                                    let z3 = f.mul(z1, &hh);
+                                    Some((x3, y3, z3))
+                                }
+                            }
+                        };
+                    }
+                }
+                match acc {
+                    None => MP::Inf,
+                    Some((x, y, z)) => {
+                        let zi = f.inv(&z).expect("Z != 0");
+                        let zi2 = f.sqr(&zi);
+                        MP::At(f.mul(&x, &zi2), f.mul(&y, &f.mul(&zi2, &zi)))
+                    }
+                }
+            }
+            (Shape::TE { a, d }, MP::At(px, py)) => {
+                let add = |p1: &(FE, FE, FE), p2: &(FE, FE, FE)| -> (FE, FE, FE) {
+                    let (x1, y1, z1) = p1;
+                    let (x2, y2, z2) = p2;
+                    let aa = f.mul(z1, z2);
+                    let b = f.sqr(&aa);
+                    let c = f.mul(x1, x2);
+                    let dd = f.mul(y1, y2);
+                    let e = f.mul(d, &f.mul(&c, &dd));
+                    let ff = f.sub(&b, &e);
+                    let g = f.add(&b, &e);
+                    let t = f.sub(&f.sub(&f.mul(&f.add(x1, y1), &f.add(x2, y2)), &c), &dd);
+                    let x3 = f.mul(&aa, &f.mul(&ff, &t));
+                    let y3 = f.mul(&aa, &f.mul(&g, &f.sub(&dd, &f.mul(a, &c))));
+                    let z3 = f.mul(&ff, &g);
+                    (x3, y3, z3)
+                };
+                let base = (px.clone(), py.clone(), f.one());
+                let mut acc = (f.zero(), f.one(), f.one());
+                for i in (0..k.bits()).rev() {
+                    acc = add(&acc, &acc);
+                    if k.bit(i) {
+                        acc = add(&acc, &base);
+                    }
+                }
+                let zi = f.inv(&acc.2).expect("Z != 0 on a complete Edwards curve");
+                MP::At(f.mul(&acc.0, &zi), f.mul(&acc.1, &zi))
+            }
+            (Shape::TE { .. }, MP::Inf) => panic!("no point at infinity on the Edwards model"),
+        }
     }
     /// SW: both y for an x; TE: both x for a y. `None` when not on the curve.
     pub fn lift(&self, c: &FE) -> Option<(FE, FE)> {
